@@ -258,8 +258,10 @@ def structural_events(model, nclients):
                     yield ("enable", c, dev, p)
 
 
-def send_events(model, kinds):
-    senders = [None] + [("c", c) for c in model.clients] + [("d", d) for d in model.devices]
+def send_events(model, kinds, nclients=None):
+    # clients send whether or not they are (still) registered: registration is about RECEIVING device traffic
+    cl = range(nclients) if nclients is not None else model.clients
+    senders = [None] + [("c", c) for c in cl] + [("d", d) for d in model.devices]
     for kind in kinds:
         for dev in ADDR:
             if msg_of(kind, dev) is None:
@@ -349,7 +351,7 @@ def explore(nclients, kinds, check, shard_idx=0, nshards=1, primed=False):
         mine = order[st] % nshards == shard_idx
         # self-loop sends: same live system (sends do not change router state; verified below)
         if mine:
-            for ev in send_events(model, kinds):
+            for ev in send_events(model, kinds, nclients):
                 mm = model.copy()
                 exp = mm.step(ev)
                 got, exc = sysm.apply(ev)
@@ -377,7 +379,7 @@ def explore(nclients, kinds, check, shard_idx=0, nshards=1, primed=False):
             ppath = primed_path(path)
             sysp, _ = build(ppath, nclients)
             if sysp.canon()[:3] == st[:3]:
-                for ev in send_events(model, kinds):
+                for ev in send_events(model, kinds, nclients):
                     mm = model.copy()
                     exp = mm.step(ev)
                     got, exc = sysp.apply(ev)
